@@ -55,7 +55,7 @@ def join_rule(prog, rep, ctx):
         s = canon(("bin", "+", own, other))
         v = canon(posform(e.value))
         cs = [canon(posform(c)) for c in conds_at(p, e)]
-        if v == s or unclamped(v) == s:
+        if v == s or unclamped(v, (IMIN, IMAX)) == s:
             seen_plain = True
         elif v == C(IMAX) and any(c == canon(("cmp", ">", s, C(IMAX))) or c == canon(("cmp", ">=", s, C(IMAX))) for c in cs):
             pass
@@ -112,7 +112,7 @@ def join_rule(prog, rep, ctx):
                 continue
             bad = ("no total update", "a normal path of join leaves the element total unchanged", f.where())
             break
-        if unclamped(canon(evs[0].value)) != s:
+        if unclamped(canon(evs[0].value), (-2**63, 2**63 - 1)) != s:
             bad = (f"total = {nshow(evs[0].value)}", f"the total becomes {nshow(evs[0].value)}, expected own total + operand's total", evs[0].where())
             break
         tot_ok = True
